@@ -24,6 +24,10 @@ diagnostic -/
 def outKeys (o : List HTok × Option RErr × List Flag) : List (Kind × Option Name) × Option RErr :=
   (o.1.map (·.tok.key), o.2.1)
 
+theorem outKeys_flag (c : Bool) (x : Flag) (o : List HTok × Option RErr × List Flag) :
+    outKeys (if c = true then (o.1, o.2.1, x :: o.2.2) else o) = outKeys o := by
+  split <;> rfl
+
 theorem erase_respace (l : List HTok) (sp : Bool) :
     ((MacroRef.respace l sp).1.map Item.tok).map erase = (l.map Item.tok).map erase := by
   cases l with
@@ -110,7 +114,8 @@ theorem expandH_erase (tbl : List MacroDef) (hobj : ∀ m ∈ tbl, m.func = fals
             simp only [hf, Bool.false_and, Bool.false_eq_true, ↓reduceIte, not_false_eq_true]
             split
             · exact keepP
-            · apply ih
+            · rw [outKeys_flag, outKeys_flag]
+              apply ih
               · exact noDir_append (noDir_map_tok _) (noDir_pendItems hnr)
               · exact noDir_append (noDir_map_tok _) (noDir_pendItems hnr')
               · simp only [List.map_append, erase_respace, erase_pendItems, hrest]
